@@ -19,7 +19,7 @@ import (
 
 type c20Case struct {
 	Kind    string         `json:"kind"`
-	Elem    string         `json:"elem,omitempty"` // slice element kind
+	Elem    string         `json:"elem,omitempty"` // slice element kind; "ptr:<kind>" = pointer elements
 	Test    model.TestSpec `json:"test"`
 	Subject model.Val      `json:"subject"` // typed exactly like the destination
 	Mode    string         `json:"mode"`
@@ -28,7 +28,11 @@ type c20Case struct {
 func (c c20Case) toCase() model.Case {
 	n := &model.Node{Kind: c.Kind, Tests: []model.TestSpec{c.Test}}
 	if c.Kind == model.KSlice {
-		n.Elem = &model.Node{Kind: c.Elem}
+		if strings.HasPrefix(c.Elem, "ptr:") {
+			n.Elem = &model.Node{Kind: model.KPtr, Elem: &model.Node{Kind: strings.TrimPrefix(c.Elem, "ptr:")}}
+		} else {
+			n.Elem = &model.Node{Kind: c.Elem}
+		}
 	}
 	// an absent-looking subject is supplied through Default, which "is then tested like any other value"
 	absent := false
@@ -217,6 +221,17 @@ func TestC20(t *testing.T) {
 					arg := model.Str(needle)
 					yield(c20Case{Kind: model.KSlice, Elem: model.KString, Test: model.TestSpec{Name: "contains", Arg: &arg}, Subject: mk(k), Mode: mode})
 				}
+			}
+		}
+		// pointer elements: Contains(&v) is membership by deep equality, not by pointer identity
+		for _, mode := range modes {
+			for _, needle := range []string{"e0", "e1", "zz"} {
+				arg := model.Str(needle)
+				yield(c20Case{Kind: model.KSlice, Elem: "ptr:string", Test: model.TestSpec{Name: "contains", Arg: &arg}, Subject: mk(2), Mode: mode})
+			}
+			for _, needle := range []int{1, 7, 8} {
+				arg := model.Int(needle)
+				yield(c20Case{Kind: model.KSlice, Elem: "ptr:int", Test: model.TestSpec{Name: "contains", Arg: &arg}, Subject: model.List(model.Int(1), model.Int(7)), Mode: mode})
 			}
 		}
 		for _, mode := range modes {
